@@ -27,7 +27,7 @@ LEVEL_NOTE = ("Tolerance 1e-6 relative to the largest contributing node (float32
               "monitor is not bit-for-bit). Cell-edge ties (X or Y = k + 1/2) admit either neighbouring cell as 'own cell'.")
 RULE = ("case = one world x 3 subgrids x 2000 positions (kinds: random nodes, per-level linear, linear in x,y,z over a flat bottom). Non-trivial: land faces contribute, positions "
         "on edges/rim and depths outside the level range are present; distinct by world parameters.")
-MANDATORY = ["subgrid_with_negative_limits", "positions_compared", "land_face_contributes", "depth_above_top_level", "depth_below_bottom_level", "depth_on_level", "edge_tie_positions", "rim_positions",
+MANDATORY = ["vertical_grid_from_Vinfo_file_without_Vtransform", "time_reversed_clock", "subgrid_with_negative_limits", "positions_compared", "land_face_contributes", "depth_above_top_level", "depth_below_bottom_level", "depth_on_level", "edge_tie_positions", "rim_positions",
              "packed_storage", "packed_with_different_scale_factors", "subgrid_pairs_compared", "scalar_values_compared", "linear_levels_exact", "linear3d_exact", "convexity_checked", "vtransform2", "e2e_displacements_checked", "e2e_scalar_values_checked", "consecutive_update_values_compared", "second_file_with_other_packing", "later_frame_nonzero_on_land_faces_first_frame_zero", "grid_file_with_mask_u_and_mask_v"]
 ASSUMPTIONS = ["add_offset of packed u/v is zero (the code documents that it ignores it)", "positions inside the valid region of every subgrid used"]
 TIMEOUT = {"quick": 900, "thorough": 3400}
@@ -109,6 +109,8 @@ def run_e2e(case: dict[str, Any], wd: Path) -> dict[str, Any]:
     rng = C.rng_for(case["seed"], 22, case["idx"])
     imax, jmax, N = int(rng.integers(10, 30)), int(rng.integers(10, 24)), int(rng.integers(2, 12))
     Vt = int(rng.choice([1, 2]))
+    if case["idx"] % 5 == 2:
+        Vt = 2  # these cases take the vertical set-up from Vinfo, the file saying nothing about the transform
     dx, dy = float(rng.choice([400.0, 1000.0])), float(rng.choice([400.0, 1500.0]))
     dt = 300
     sub = [2, imax - 2, 3, jmax - 2] if rng.random() < 0.5 else None
@@ -179,6 +181,8 @@ def run_case(case: dict[str, Any], wd: Path) -> dict[str, Any]:
     imax, jmax = int(rng.integers(8, 41)), int(rng.integers(8, 33))
     N = int(rng.integers(2, 31))
     Vt = int(rng.choice([1, 2]))
+    if case["idx"] % 5 == 2:
+        Vt = 2  # these cases take the vertical set-up from Vinfo, the file saying nothing about the transform
     flat = kind == "linear3d"
     hmin = 8.0
     hspec = dict(kind="flat", h=float(rng.uniform(20, 300))) if flat else dict(kind="random", hmin=hmin, hmax=float(rng.choice([60.0, 400.0, 3000.0])), seed=case["idx"])
@@ -211,6 +215,11 @@ def run_case(case: dict[str, Any], wd: Path) -> dict[str, Any]:
         spec["pack_per_file"] = [dict(spec["pack"]), dict(u=2.0e-4, v=5.0e-5, temp=(0.002, 5.0), salt=(0.002, 17.0))]
     if kind == "random" and case["idx"] % 3 != 1:
         spec["staggered_masks"] = True  # the grid file also carries mask_u / mask_v, as files written by ROMS do
+    use_vinfo = bool(case["idx"] % 5 == 2)
+    if use_vinfo:
+        # the vertical set-up comes from the Vinfo option; the file itself carries no Vtransform variable (it would say "1" by default)
+        spec["vert"] = dict(vert, write_Vtransform=False)
+    rev_run = bool(case["idx"] % 4 == 1 and not packed)  # time-reversed clock: the velocity changes sign, scalar forcing does not
     land_zero_first = bool(kind == "random" and mask.get("p", 0.0) > 0 and case["idx"] % 2 == 0)
     if land_zero_first:
         spec["land_zero_frames"] = [0]  # first frame as the ocean model writes it (zero on land faces), the next one filled with values there
@@ -221,7 +230,7 @@ def run_case(case: dict[str, Any], wd: Path) -> dict[str, Any]:
         M = np.array(nc.variables["mask_rho"][:], float)
         hc = float(nc.variables["hc"].getValue())
         Cs_r = np.array(nc.variables["Cs_r"][:], float)
-        Vtf = int(nc.variables["Vtransform"].getValue())
+        Vtf = int(nc.variables["Vtransform"].getValue()) if "Vtransform" in nc.variables else Vt
     S_r = (np.arange(N) + 0.5) / N - 1.0
     ZR = W.level_depths(H, hc, S_r, Cs_r, Vtf)  # (N, jmax, imax), own implementation
 
@@ -285,9 +294,12 @@ def run_case(case: dict[str, Any], wd: Path) -> dict[str, Any]:
     for sub in subs:
         try:
             timer = TimeKeeper(start=C.T0, stop=str(tadd(C.T0, 600 if two_files else 1800)), dt=600)
+            if rev_run:
+                timer = TimeKeeper(start=str(tadd(C.T0, 1800)), stop=C.T0, dt=600, time_reversal=True)
             state = State(instance_variables=dict(temp=float, salt=float), default_values=dict(temp=0.0, salt=0.0))
             modules: dict[str, Any] = dict(time=timer, state=state)
-            grid = Grid(filename=str(w["gridfile"]), subgrid=sub)
+            gkw = dict(Vinfo=dict(N=N, hc=vert["hc"], theta_s=vert["theta_s"], theta_b=vert["theta_b"], Vstretching=vert["Vstretching"], Vtransform=Vt)) if use_vinfo else {}
+            grid = Grid(filename=str(w["gridfile"]), subgrid=sub, **gkw)
             modules["grid"] = grid
             forcing = Forcing(modules, filename=w["pattern"] if two_files else str(w["files"][0]), extra_forcing=["temp", "salt"])
             modules["forcing"] = forcing
@@ -314,8 +326,13 @@ def run_case(case: dict[str, Any], wd: Path) -> dict[str, Any]:
             V.append(C.viol(f"Grid/Forcing evaluation failed for positions inside the valid region (subgrid {sub}): {type(e).__name__}: {e}",
                             tb=traceback.format_exc(limit=-5)[-1200:], **desc))
             return C.result(V, sit, cnt, nontrivial=True, key=str(case["idx"]), sample=desc)
-        results.append((np.array(U, float), np.array(Vv, float), sc, fu, fv))
+        sg_ = -1.0 if rev_run else 1.0  # compared below with the forward reference
+        if rev_run and sub is None and kind == "random":
+            second = (sg_ * second[0], sg_ * second[1], second[2])
+        results.append((sg_ * np.array(U, float), sg_ * np.array(Vv, float), sc, sg_ * fu, sg_ * fv))
     U0, V0, sc0, fu0, fv0 = results[0]
+    sit["vertical_grid_from_Vinfo_file_without_Vtransform"] = int(use_vinfo and Vt == 2)
+    sit["time_reversed_clock"] = int(rev_run)
     if kind == "random":
         # the second update of the same Forcing must give every particle exactly what the first gave the particle it swapped with
         # (two packed files: the same physical field, re-quantised with the second file's parameters - compared at that precision)
